@@ -6,6 +6,7 @@ require (
 	github.com/absolute8511/redcon v0.9.3
 	github.com/gobwas/glob v0.2.3
 	github.com/youzan/ZanRedisDB v0.0.0
+	github.com/youzan/go-zanredisdb v0.6.3
 	golang.org/x/net v0.0.0-20191209160850-c0dbc17a3553
 	pgregory.net/rapid v1.3.0
 )
@@ -52,7 +53,6 @@ require (
 	github.com/twmb/murmur3 v1.1.5 // indirect
 	github.com/ugorji/go v0.0.0-20170107133203-ded73eae5db7 // indirect
 	github.com/xiang90/probing v0.0.0-20160813154853-07dd2e8dfe18 // indirect
-	github.com/youzan/go-zanredisdb v0.6.3 // indirect
 	github.com/youzan/gorocksdb v0.0.0-20201201080653-1a9b5c65c962 // indirect
 	go.uber.org/atomic v1.6.0 // indirect
 	go.uber.org/multierr v1.5.0 // indirect
